@@ -59,7 +59,7 @@ theorem newChild_ok (halt : Alternating G) (hatt : att = .white ∨ att = .black
     (hcm : child.move = m) (hca : child.isAnd = !st.focus.isAnd) (hcx : child.expanded = false)
     (hcc : child.children = [])
     (hsf : sta.focus = child) (hss : sta.stack = nxt :: st.stack) (hsd : sta.depthLimited = st.depthLimited)
-    (hev : evaluate G att sta = some st2) :
+    (hev : PN.evaluate G att sta = some st2) :
     let c := setNumbers G nxt st2.focus
     ChildOf G cur st.focus c nxt ∧ TreeOK G att st2.depthLimited (cur :: hs) nxt c ∧
       c.expanded = false ∧ st2.depthLimited = (st.depthLimited || st2.depthLimited) ∧
